@@ -226,6 +226,9 @@ fn check_cell(c: &Cell, ctx: &mut Ctx) -> Verdict {
 #[derive(Debug, Clone, Copy, Serialize, Deserialize, PartialEq, Eq)]
 enum TOp {
     Insert,
+    /// in-place insertion; the initialisation closure contains a scheduling point, so other
+    /// tasks' operations (iteration!) can land while the object is being constructed
+    InsertWith,
     Share { slot: u16 },
     Clone { slot: u16 },
     Send { slot: u16, to: u8 },
@@ -252,7 +255,8 @@ struct SCase {
 
 fn scase_strategy() -> impl Strategy<Value = SCase> {
     let op = prop_oneof![
-        6 => Just(TOp::Insert),
+        5 => Just(TOp::Insert),
+        3 => Just(TOp::InsertWith),
         2 => any::<u16>().prop_map(|slot| TOp::Share { slot }),
         3 => any::<u16>().prop_map(|slot| TOp::Clone { slot }),
         4 => (any::<u16>(), 0u8..4).prop_map(|(slot, to)| TOp::Send { slot, to }),
@@ -260,7 +264,7 @@ fn scase_strategy() -> impl Strategy<Value = SCase> {
         5 => any::<u16>().prop_map(|slot| TOp::Drop { slot }),
         1 => any::<u16>().prop_map(|slot| TOp::IntoInner { slot }),
         3 => any::<u16>().prop_map(|slot| TOp::Read { slot }),
-        1 => Just(TOp::Iter),
+        3 => Just(TOp::Iter),
         1 => (0u8..5).prop_map(|n| TOp::Reserve { n }),
         1 => Just(TOp::Shrink),
         1 => Just(TOp::ClonePool),
@@ -280,17 +284,40 @@ struct ObjState {
     addr: AtomicUsize,
 }
 
+#[repr(C)]
 struct P {
+    /// `MAGIC` from construction to destruction; first field, so an observer that is handed a
+    /// pointer to a (supposedly complete) object can check it without touching anything else
+    magic: u64,
     canary: [u64; 3],
     st: Arc<ObjState>,
 }
 
+const MAGIC: u64 = 0x600D_0B1E_C700_1234;
+
 const CANARY: u64 = 0xC0DE_CAFE_F00D_D00D;
+
+/// Counts what an iteration under the pool lock yields and how many of the yielded pointers do
+/// not point to a complete live object (first word != MAGIC).
+fn count_valid(it: impl Iterator<Item = *const u64>) -> (usize, usize) {
+    let mut n = 0;
+    let mut bad = 0;
+    for q in it {
+        n += 1;
+        // SAFETY: the pool yielded this pointer as the address of a live object of type P
+        // (repr(C), first field u64); reading one aligned word of slab memory is in bounds.
+        if unsafe { q.read_volatile() } != MAGIC {
+            bad += 1;
+        }
+    }
+    (n, bad)
+}
 
 impl P {
     fn new(st: Arc<ObjState>) -> Self {
         let id = u64::from(st.id);
         P {
+            magic: MAGIC,
             canary: [CANARY ^ id, CANARY.rotate_left(7) ^ id, CANARY.rotate_left(29) ^ id],
             st,
         }
@@ -307,6 +334,7 @@ impl Drop for P {
             self.st.destroyed_early.fetch_add(1, Ordering::SeqCst);
         }
         self.st.destroyed.fetch_add(1, Ordering::SeqCst);
+        self.magic = 0xDDDD_DDDD_DDDD_DDDD;
         self.canary = [0xDDDD_DDDD_DDDD_DDDD; 3];
     }
 }
@@ -317,8 +345,11 @@ trait TsPool: Clone + Send + Sync + 'static {
     const NAME: &'static str;
     fn new() -> Self;
     fn insert(&self, p: P) -> Self::M;
+    /// `insert_with` whose closure passes a scheduling point before it writes the value
+    fn insert_with_yield(&self, p: P) -> Self::M;
     fn len(&self) -> usize;
-    fn iter_count(&self) -> Option<usize>;
+    /// (objects the iteration yielded, how many of them were not complete live objects)
+    fn iter_count(&self) -> Option<(usize, usize)>;
     fn reserve(&self, n: usize);
     fn shrink(&self);
     fn probe(&self) -> Result<(), String>;
@@ -341,10 +372,19 @@ macro_rules! ts_pool {
             fn insert(&self, p: P) -> Self::M {
                 <$t>::insert(self, p)
             }
+            fn insert_with_yield(&self, p: P) -> Self::M {
+                // SAFETY: the closure fully initialises the value.
+                unsafe {
+                    <$t>::insert_with(self, move |slot: &mut std::mem::MaybeUninit<P>| {
+                        vsched::yield_point();
+                        slot.write(p);
+                    })
+                }
+            }
             fn len(&self) -> usize {
                 <$t>::len(self)
             }
-            fn iter_count(&self) -> Option<usize> {
+            fn iter_count(&self) -> Option<(usize, usize)> {
                 let $p = self;
                 $iter
             }
@@ -376,8 +416,8 @@ macro_rules! ts_pool {
         }
     };
 }
-ts_pool!(OpaquePool, "OpaquePool", PooledMut<P>, Pooled<P>, new = OpaquePool::with_layout_of::<P>(), iter = |p| Some(p.with_iter(|it| it.count())), reserve = |p, n| p.reserve(n));
-ts_pool!(PinnedPool<P>, "PinnedPool", PooledMut<P>, Pooled<P>, new = PinnedPool::new(), iter = |p| Some(p.with_iter(|it| it.count())), reserve = |p, n| p.reserve(n));
+ts_pool!(OpaquePool, "OpaquePool", PooledMut<P>, Pooled<P>, new = OpaquePool::with_layout_of::<P>(), iter = |p| Some(p.with_iter(|it| count_valid(it.map(|q| q.as_ptr() as *const u64)))), reserve = |p, n| p.reserve(n));
+ts_pool!(PinnedPool<P>, "PinnedPool", PooledMut<P>, Pooled<P>, new = PinnedPool::new(), iter = |p| Some(p.with_iter(|it| count_valid(it.map(|q| q.as_ptr() as *const u64)))), reserve = |p, n| p.reserve(n));
 ts_pool!(BlindPool, "BlindPool", BlindPooledMut<P>, BlindPooled<P>, new = BlindPool::new(), iter = |_p| None, reserve = |p, n| p.reserve_for::<P>(n));
 
 enum H<T: TsPool> {
@@ -454,7 +494,8 @@ fn run_sched<T: TsPool>(case: &SCase, ctx: &mut Ctx) -> Verdict {
                         for op in &script {
                             match *op {
                                 TOp::Yield => vsched::yield_point(),
-                                TOp::Insert => {
+                                TOp::Insert | TOp::InsertWith => {
+                                    let with = matches!(*op, TOp::InsertWith);
                                     let Some(p) = pools.last() else { continue };
                                     let id = sh.next_id.fetch_add(1, Ordering::SeqCst);
                                     let st = Arc::new(ObjState {
@@ -465,7 +506,7 @@ fn run_sched<T: TsPool>(case: &SCase, ctx: &mut Ctx) -> Verdict {
                                         addr: AtomicUsize::new(0),
                                     });
                                     sh.objs.lock().unwrap().push(Arc::clone(&st));
-                                    let m = p.insert(P::new(Arc::clone(&st)));
+                                    let m = if with { p.insert_with_yield(P::new(Arc::clone(&st))) } else { p.insert(P::new(Arc::clone(&st))) };
                                     st.addr.store(T::m_addr(&m), Ordering::SeqCst);
                                     slots.push((Item { st, h: H::M(m) }, ti));
                                 }
@@ -547,7 +588,11 @@ fn run_sched<T: TsPool>(case: &SCase, ctx: &mut Ctx) -> Verdict {
                                 }
                                 TOp::Iter => {
                                     if let Some(p) = pools.last() {
-                                        let _ = p.iter_count();
+                                        if let Some((n, bad)) = p.iter_count() {
+                                            if bad > 0 {
+                                                problem("with_iter/yields-incomplete-object", format!("with_iter yielded {n} objects, {bad} of them not (or no longer) complete live objects"));
+                                            }
+                                        }
                                     }
                                 }
                                 TOp::Reserve { n } => {
